@@ -72,6 +72,8 @@ def corpus():
         items.append({'name': os.path.relpath(path, root), 'path': path,
                       'base': os.path.basename(path), 'data': data})
     items.extend(synthetic(items))
+    from checks import c11_handmade
+    items.extend(c11_handmade.listings())
     _STATE['corpus'] = items
     _STATE['by_name'] = {it['name']: i for i, it in enumerate(items)}
     return items
@@ -199,6 +201,19 @@ def build_refs():
     by_name = _STATE['by_name']
     dropped = []
     for idx, item in enumerate(items):
+        if item.get('handmade'):
+            ref = refs[idx]
+            # dropped only when the parser itself refuses it (the template
+            # is wrong); a complete listing on which parsing fails with
+            # another exception stays in: that is a violation, reported by
+            # the operations on it
+            foreign = ref['scan'].startswith('other') or ref.get('other')
+            if not foreign and (
+                    ref['scan'] != 'ok' or len(ref['batches']) != 2 or
+                    any(ref['res'].get(b) is None for b in ref['batches'])):
+                dropped.append(item['name'])
+                item['dropped'] = True
+            continue
         if 'origin' not in item:
             continue
         ref = refs[idx]
@@ -442,7 +457,37 @@ def gen_history(rng, fam):
         else:
             cut = rng.randrange(0, size + 1)
         ops.append([item['name'], min(cut, size)])
-    return {'kind': 'listings', 'ops': ops}
+    scn = {'kind': 'listings', 'ops': ops}
+    if fam.get('threads'):
+        scn['threads'] = True
+    return scn
+
+
+def eval_op_in_thread(idx, cut, stats, reparse=False):
+    '''The reader process parses every listing in a thread of its own, one
+    after the other (never two at a time), like the worker threads of the
+    scheduler do: what an earlier parse left behind (a lock, a cache, a
+    thread-local) now belongs to a thread that no longer exists.'''
+    import threading
+    box = {}
+
+    def work():
+        try:
+            box['ret'] = eval_op(idx, cut, stats, reparse)
+        except BaseException as exc:   # noqa
+            box['exc'] = exc
+
+    thread = threading.Thread(target=work, daemon=True)
+    thread.start()
+    thread.join(OP_WATCHDOG)
+    if thread.is_alive():
+        item = corpus()[idx]
+        return [('hang', 'hang', {'listing': item['name'], 'cut': cut,
+                                  'watchdog_s': OP_WATCHDOG,
+                                  'in': 'a fresh reader thread'})], 'hang'
+    if 'exc' in box:
+        raise box['exc']
+    return box['ret']
 
 
 def run_history_here(scn):
@@ -454,12 +499,22 @@ def run_history_here(scn):
     res.facts = {}
     by_name = _STATE['by_name']
     rng = random.Random(len(scn['ops']))
+    if _STATE.get('poisoned'):
+        # an earlier history of this process ended in a hang: the process
+        # state (a lock that is never released) makes every further parse
+        # hang as well; do not wait for each of them
+        res.violations.append(_STATE['poisoned'])
+        return res
     for name, cut in scn['ops']:
         idx = by_name.get(name)
         if idx is None:
             raise driver.HarnessError('unknown listing %s in scenario' % name)
-        viol, outcome = eval_op_guarded(idx, cut, res.facts,
-                                        reparse=rng.random() < 0.05)
+        evaluate = eval_op_in_thread if scn.get('threads') else \
+            eval_op_guarded
+        viol, outcome = evaluate(idx, cut, res.facts,
+                                 reparse=rng.random() < 0.05)
+        if outcome == 'hang' and IN_SHARD:
+            _STATE['poisoned'] = viol[0]
         sim.event(name, cut, outcome)
         if outcome not in ('scan-error',):
             pass
@@ -606,7 +661,8 @@ class Spec(simcheck.SimSpec):
     runs = {'quick': 1600, 'thorough': 60000}
     shard_runs = 25
     search_tries = 0
-    families = [{'label': 'mixed-listings'}]
+    families = [{'label': 'mixed-listings'}, {'label': 'mixed-listings-2'},
+                {'label': 'one-reader-thread-per-listing', 'threads': True}]
     rule = ('phase 1: one evaluation = one simulated reader process parsing a '
             'seeded sequence of 8-30 (listing, crash point) pairs drawn over '
             'the whole corpus (Parser(), parse_from_number for every edition '
@@ -669,11 +725,15 @@ class Spec(simcheck.SimSpec):
     def candidates(self, scn):
         ops = scn['ops']
         if len(ops) > 1:
-            yield {'kind': 'listings', 'ops': ops[-1:]}
+            yield dict(scn, ops=ops[-1:])
             for k in range(len(ops) - 2, -1, -1):
                 new = copy.deepcopy(scn)
                 del new['ops'][k]
                 yield new
+        if scn.get('threads'):
+            new = copy.deepcopy(scn)
+            del new['threads']
+            yield new
 
     def extra(self, tier, seed):
         return enumeration(tier, seed)
